@@ -94,3 +94,73 @@ def first(events: list[dict], name: str) -> dict | None:
         if e["ev"] == name:
             return e
     return None
+
+
+# ---------------------------------------------------------------------------------------------
+# shared pipeline corpus (C16 C18 C19 C21 C22 C24)
+# ---------------------------------------------------------------------------------------------
+STRATS = [("CASE", "BACKWARD"), ("CASE", "FORWARD"), ("SUITE", "BACKWARD"), ("COMBINED", "BACKWARD"),
+          ("SUITE", "FORWARD"), ("COMBINED", "FORWARD"), ("NONE", "BACKWARD")]
+
+
+def pipe_configs(quick: bool) -> list[dict]:
+    out = []
+    seeds = [3] if quick else [3, 17, 29]
+    modes = ["SIMPLE", "MUTATION_ANALYSIS", "NONE"]
+    algs = ["DYNAMOSA", "MIO", "WHOLE_SUITE"]
+    k = 0
+    for si, seed in enumerate(seeds):
+        for mi, mod in enumerate(MODULES):
+            picks = [(mi + si) % 3] if quick else [0, 1, 2]
+            for m in picks:
+                st, di = STRATS[(k + m) % len(STRATS)]
+                out.append({"module": mod, "seed": seed + mi, "algorithm": algs[(mi + m + si) % 3], "iterations": 4,
+                            "assertions": modes[m], "metrics": "BRANCH", "population": 5,
+                            "min_strategy": st, "min_direction": di})
+                k += 1
+    return out
+
+
+def norm(code: str) -> str:
+    return "".join(code.split())
+
+
+def run_pytest(run: dict, timeout: int = 300) -> dict:
+    """Run pytest on the exported file against the ORIGINAL module (fresh interpreter)."""
+    import xml.etree.ElementTree as ET  # noqa: PLC0415
+
+    exp = first(run["events"], "Export")
+    res = {"collected": False, "syntax_error": False, "tests": {}, "rc": -1, "tail": ""}
+    if exp is None or not exp["text"]:
+        return res
+    path = Path(exp["path"])
+    xml = path.parent / "junit.xml"
+    env = dict(os.environ)
+    env["PYTHONPATH"] = f"{run['cfg']['src_dir']}"
+    env.pop("SE2P_PYNGUIN_VERIF", None)
+    try:
+        compile(exp["text"], str(path), "exec")
+    except SyntaxError:
+        res["syntax_error"] = True
+    p = subprocess.run([sys.executable, "-m", "pytest", "-p", "no:cacheprovider", "-p", "no:randomly", "-q",
+                        f"--junitxml={xml}", "--timeout=60", str(path)],
+                       cwd=str(path.parent), env=env, capture_output=True, text=True, timeout=timeout)
+    res["rc"] = p.returncode
+    res["tail"] = (p.stdout + p.stderr)[-1200:]
+    if xml.exists():
+        root = ET.parse(xml).getroot()
+        for tcase in root.iter("testcase"):
+            name = tcase.get("name")
+            outcome = "passed"
+            for child in tcase:
+                if child.tag == "failure":
+                    outcome = "failed"
+                elif child.tag == "error":
+                    outcome = "error"
+                elif child.tag == "skipped":
+                    outcome = "xfailed" if (child.get("type") or "").endswith("xfail") else "skipped"
+            res["tests"][name] = outcome
+        res["collected"] = p.returncode in (0, 1) and "error" not in {o for o in res["tests"].values()} or bool(res["tests"])
+        if p.returncode in (2, 3, 4):
+            res["collected"] = False
+    return res
